@@ -119,6 +119,12 @@ func TestC05_Shield(t *testing.T) {
 			case 1:
 				hdr = []string{"Connection", "close", "X-Anything", "1"}
 			}
+			switch rapid.IntRange(0, 9).Draw(t, "reqCtx") {
+			case 0: // the client has hung up already / an outer timeout has fired: still a request
+				d.NextCtx = "cancelled"
+			case 1:
+				d.NextCtx = "expired"
+			}
 			passed := d.Start(hdr...)
 			if inShield {
 				if d.Now != shieldFrom {
@@ -139,6 +145,13 @@ func TestC05_Shield(t *testing.T) {
 		}
 		n := rapid.IntRange(3, 60).Draw(t, "nsteps")
 		for i := 0; i < n; i++ {
+			if rapid.IntRange(0, 14).Draw(t, "rewrap") == 0 {
+				// the chain is rebuilt around the same handler: the breaker's state is untouched
+				d.Rewrap()
+				if st := d.State(); st != prev {
+					t.Fatalf("Wrap() moved the breaker from %s to %s at +%v\n%s", prev, st, d.Now, d.History())
+				}
+			}
 			switch rapid.IntRange(0, 9).Draw(t, "op") {
 			case 0, 1:
 				start()
